@@ -25,6 +25,19 @@ def run(ctx):
         "loader appends one filter per non-require command in result order and requires every capability (string or "
         "list form); the renderer writes the require command first and then the filters in list order.")
     ctx.not_decided = "equality of the reloaded set with the original for all reachable states (behavioural)."
+    save_load_rules(ctx, R, PR)
+    # the saved script must be one the parser accepts (else nothing can be loaded from it): the factory's rendering rules (F1-F6 of
+    # C06), the decoding of string tokens (P15 of C01) and the token rules themselves (L1-L4 of C01) are part of this property's mechanism
+    from .c06 import factory_rules
+    factory_rules(ctx, R, PR)
+    from .c01 import p15, lexer_rules
+    p15(ctx, PR)
+    lexer_rules(ctx, PR)
+
+
+def save_load_rules(ctx, R, PR):
+    """N1-N4, H4: what the renderer writes around the filters is what the loader reads (shared with C19: `... and on a set reloaded
+    from its rendered script`)."""
     w = R.m["tosieve"]
     r = R.m["from_parser_result"]
 
@@ -331,6 +344,8 @@ def run(ctx):
     loops = [lp for lp in walk_no_nested(r.node) if isinstance(lp, ast.For) and "result" in norm(lp.iter)]
     if len(loops) == 1 and isinstance(loops[0].iter, ast.Attribute):
         ctx.holds("N4", "loader iterates parser.result in order")
+    elif le is not None and not any(f_.rule == "N4" and "result-order" in f_.key for f_ in ctx.findings):
+        ctx.holds("N4", "every entry of the evaluated five-command script is attached to its own command, in script order")
     else:
         ctx.violation("N4", r, "result-order", "the loader does not iterate parser.result directly", node=r.node)
     apps = [st for st in walk_no_nested(r.node) if isinstance(st, (ast.AugAssign, ast.Expr)) and "filters" in norm(st) and ("+=" in norm(st) or "append(" in norm(st))]
@@ -364,12 +379,6 @@ def run(ctx):
     from .c13 import registry_readers
     ctx.rule("H4", "the loader reads nothing but its parser: no function outside the gates reads the process-global extension registry")
     registry_readers(ctx, PR)
-    # the saved script must be one the parser accepts (else nothing can be loaded from it): the factory's rendering rules (F1-F6 of
-    # C06) and the decoding of string tokens (P15 of C01) are part of this property's mechanism
-    from .c06 import factory_rules
-    factory_rules(ctx, R, PR)
-    from .c01 import p15
-    p15(ctx, PR)
 
 
 
@@ -423,8 +432,31 @@ def loader_eval(ctx, R, PR, name_attr, desc_attr, markers=None):
             rc = prog.cls(args[0].v.cls)
             mro = [c.name for c in prog.mro(rc)] if rc is not None else [args[0].v.cls]
             return [(fd.Const(any(n in mro for n in names)), None)]
+        if name == "isinstance" and len(e.args) == 2 and args and isinstance(args[0], fd.Const) and isinstance(args[0].v, fd.Rec) \
+                and all(isinstance(x, ast.Name) and x.id in ("list", "tuple", "dict", "str", "bytes", "set") for x in (
+                    e.args[1].elts if isinstance(e.args[1], ast.Tuple) else [e.args[1]])):
+            return [(fd.Const(False), None)]  # an object of the package is none of the builtin containers
+        if name == "isinstance" and len(e.args) == 2 and args and isinstance(args[0], fd.Const) and isinstance(args[0].v, list) \
+                and isinstance(e.args[1], ast.Name) and e.args[1].id == "list":
+            return [(fd.Const(True), None)]
         if name in ("self.require", "require") and args:
             return [(fd.Const(None), ("require", args[0]))]
+        if isinstance(recv, fd.Const) and isinstance(recv.v, fd.Rec) and isinstance(e.func, ast.Attribute) and not args and not kw:
+            # a method of the stand-in's class that only reads the object (`f.extensions()`): interpreted on the stand-in
+            c_ = prog.cls(recv.v.cls)
+            if c_ is not None:
+                for k_ in prog.mro(c_):
+                    m_ = k_.methods.get(e.func.attr)
+                    if m_ is not None and "property" not in m_.decorators and len(m_.params) == 1 and not any(
+                            isinstance(x, ast.Attribute) and isinstance(x.ctx, ast.Store) for x in ast.walk(m_.node)):
+                        sub_ = fd.Interp(m_.node, None, oracle, loop_unroll=8, max_depth=2)
+                        sub_.getattr_hook = getattr_hook
+                        outs = []
+                        for p_ in sub_.run({m_.params[0]: recv}, fd.State({}, st.events, {})):
+                            outs.append((fd.Exc(p_.value, p_.node) if p_.kind == "raise" else p_.value, None))
+                        return outs
+                    if m_ is not None:
+                        break
         if name == "getattr" and len(args) >= 2 and isinstance(args[0], fd.Const) and isinstance(args[0].v, fd.Rec) \
                 and isinstance(args[1], fd.Const) and isinstance(args[1].v, str):
             if args[1].v in args[0].v.fields:
